@@ -12,6 +12,7 @@ import (
 
 // Clause is one named contract clause.
 type Clause struct {
+	Assumed bool // `assumes`: precondition taken as an input assumption (not an obligation at call sites)
 	Kind  string // requires | ensures | invariant | step
 	Name  string
 	Expr  string
@@ -72,7 +73,7 @@ func (c *Contract) hasMode(m string) bool {
 var clauseKeywords = map[string]bool{
 	"func": true, "props": true, "mode": true, "requires": true, "ensures": true,
 	"assigns": true, "decreases": true, "loop": true, "let": true, "global": true,
-	"lemma": true, "pure": true, "fieldinv": true, "private": true, "table": true, "immutable": true, "maintain": true, "nilable": true,
+	"lemma": true, "pure": true, "fieldinv": true, "private": true, "table": true, "immutable": true, "maintain": true, "nilable": true, "define": true, "assumes": true,
 }
 
 var nameRe = regexp.MustCompile(`^([A-Za-z_][A-Za-z0-9_\[\]\.\-]*)(\{[A-Z0-9!, ]+\})?:\s*(.*)$`)
@@ -118,6 +119,7 @@ func parseContractFile(path, pkgPath string) (*ContractFile, error) {
 	out := &ContractFile{}
 	var cur *Contract
 	var last *string // expression being continued
+	var macros []*macro
 	sc := bufio.NewScanner(f)
 	sc.Buffer(make([]byte, 1<<20), 1<<20)
 	ln := 0
@@ -165,6 +167,21 @@ func parseContractFile(path, pkgPath string) (*ContractFile, error) {
 			out.Globals = append(out.Globals, &GlobalFact{PkgPath: pkgPath, Name: rest, File: base, Line: ln})
 		case "table":
 			out.Tables = append(out.Tables, &GlobalFact{PkgPath: pkgPath, Name: rest, File: base, Line: ln})
+		case "define":
+			// define name(p1, p2): expr   -- a named predicate, expanded textually in this file's clauses
+			i, j := strings.Index(rest, "("), strings.Index(rest, "):")
+			if i <= 0 || j < i {
+				return nil, fmt.Errorf("%s:%d: bad define", path, ln)
+			}
+			m := &macro{name: strings.TrimSpace(rest[:i])}
+			for _, p := range strings.Split(rest[i+1:j], ",") {
+				if p = strings.TrimSpace(p); p != "" {
+					m.params = append(m.params, p)
+				}
+			}
+			m.body = strings.TrimSpace(rest[j+2:])
+			macros = append(macros, m)
+			last = &m.body
 		case "nilable":
 			out.Nilables = append(out.Nilables, &GlobalFact{PkgPath: pkgPath, Name: strings.TrimSpace(rest), File: base, Line: ln})
 		case "immutable":
@@ -218,9 +235,13 @@ func parseContractFile(path, pkgPath string) (*ContractFile, error) {
 				cl := mkClause("maintain", rest, base, ln, len(cur.Maintain))
 				cur.Maintain = append(cur.Maintain, cl)
 				last = &cl.Expr
-			case "requires", "ensures":
+			case "requires", "ensures", "assumes":
 				cl := mkClause(kw, rest, base, ln, len(cur.Requires)+len(cur.Ensures))
-				if kw == "requires" {
+				if kw == "assumes" {
+					// an input assumption: holds on entry by hypothesis, never checked at call sites
+					cl.Assumed = true
+					cur.Requires = append(cur.Requires, cl)
+				} else if kw == "requires" {
 					cur.Requires = append(cur.Requires, cl)
 				} else {
 					cur.Ensures = append(cur.Ensures, cl)
@@ -291,7 +312,89 @@ func parseContractFile(path, pkgPath string) (*ContractFile, error) {
 			}
 		}
 	}
+	if len(macros) > 0 {
+		ex := func(p *string) { *p = expandMacros(*p, macros) }
+		for _, m := range macros {
+			ex(&m.body) // earlier definitions may be used by later ones
+		}
+		for _, c := range out.Contracts {
+			for _, cl := range c.Requires {
+				ex(&cl.Expr)
+			}
+			for _, cl := range c.Ensures {
+				ex(&cl.Expr)
+			}
+			for _, cl := range c.Maintain {
+				ex(&cl.Expr)
+			}
+			for i := range c.Lets {
+				ex(&c.Lets[i][1])
+			}
+			for _, ls := range c.Loops {
+				for _, cl := range ls.Invariants {
+					ex(&cl.Expr)
+				}
+				for _, cl := range ls.Steps {
+					ex(&cl.Expr)
+				}
+				for i := range ls.Lets {
+					ex(&ls.Lets[i][1])
+				}
+			}
+		}
+	}
 	return out, sc.Err()
+}
+
+type macro struct {
+	name   string
+	params []string
+	body   string
+}
+
+// expandMacros replaces name(args) by the macro body with parameters substituted (textually, whole words).
+func expandMacros(e string, ms []*macro) string {
+	for _, m := range ms {
+		for guard := 0; guard < 100; guard++ {
+			re := regexp.MustCompile(`\b` + regexp.QuoteMeta(m.name) + `\(`)
+			loc := re.FindStringIndex(e)
+			if loc == nil {
+				break
+			}
+			// balanced arguments
+			depth, i := 1, loc[1]
+			var args []string
+			start := i
+			for ; i < len(e) && depth > 0; i++ {
+				switch e[i] {
+				case '(', '[':
+					depth++
+				case ')', ']':
+					depth--
+					if depth == 0 {
+						args = append(args, strings.TrimSpace(e[start:i]))
+					}
+				case ',':
+					if depth == 1 {
+						args = append(args, strings.TrimSpace(e[start:i]))
+						start = i + 1
+					}
+				}
+			}
+			if depth != 0 || len(args) != len(m.params) {
+				break
+			}
+			body := m.body
+			for k, p := range m.params {
+				body = regexp.MustCompile(`\b`+regexp.QuoteMeta(p)+`\b`).ReplaceAllLiteralString(body, "\x00"+fmt.Sprint(k)+"\x00")
+			}
+			for k := range m.params {
+				body = strings.ReplaceAll(body, "\x00"+fmt.Sprint(k)+"\x00", "("+args[k]+")")
+			}
+			e = e[:loc[0]] + "(" + body + ")" + e[i:]
+		}
+	}
+	return e
 }
 
 func mkClause(kind, rest, file string, line, ord int) *Clause {
